@@ -154,9 +154,9 @@ func mkStack(r *RNG, h int, top tak.Kind) tak.Square {
 	return sq
 }
 
-// fromBoard builds the position with the default configuration when the board fits the default
+// textFromBoard builds the position with the default configuration when the board fits the default
 // piece counts, otherwise with just enough pieces.
-func fromBoard(board [][]tak.Square, ply int) *tak.Position {
+func textFromBoard(board [][]tak.Square, ply int) *tak.Position {
 	size := len(board)
 	var cnt, caps [2]int
 	for _, row := range board {
@@ -194,7 +194,7 @@ func fromBoard(board [][]tak.Square, ply int) *tak.Position {
 	return p
 }
 
-func emptyBoard(size int) [][]tak.Square {
+func textEmptyBoard(size int) [][]tak.Square {
 	b := make([][]tak.Square, size)
 	for y := range b {
 		b[y] = make([]tak.Square, size)
@@ -275,7 +275,7 @@ func genC10(c *Ctx) {
 				if idx%c.NShard != c.Shard {
 					continue
 				}
-				board := emptyBoard(size)
+				board := textEmptyBoard(size)
 				for x := 0; x < size; x++ {
 					if mask&(1<<uint(x)) != 0 {
 						board[y][x] = mkStack(r, 1+r.Intn(3), []tak.Kind{tak.Flat, tak.Standing, tak.Flat}[r.Intn(3)])
@@ -292,7 +292,7 @@ func genC10(c *Ctx) {
 						}
 					}
 				}
-				emitTPSPos(c, fromBoard(board, randPly(r)), "rowpattern")
+				emitTPSPos(c, textFromBoard(board, randPly(r)), "rowpattern")
 			}
 		}
 	}
@@ -305,14 +305,14 @@ func genC10(c *Ctx) {
 					if idx%c.NShard != c.Shard {
 						continue
 					}
-					board := emptyBoard(size)
+					board := textEmptyBoard(size)
 					y := r.Intn(size)
 					board[y][x] = mkStack(r, h, kind)
 					if r.Chance(1, 2) {
 						board[y][size-1-x] = mkStack(r, 1+r.Intn(64), tak.Flat)
 					}
 					c.Count("stackheight~" + strconv.Itoa(h/16*16))
-					emitTPSPos(c, fromBoard(board, randPly(r)), "rowend-stack")
+					emitTPSPos(c, textFromBoard(board, randPly(r)), "rowend-stack")
 				}
 			}
 		}
